@@ -24,6 +24,9 @@ EXPLANATION = (
     "of the event path has no cycle, so the drain is a loop and nested sends cannot deepen the stack. Decides the "
     "structural clauses; stack-depth numbers and user code that bypasses the Event entry point are not decided."
 )
+EXPLANATION += (
+    " " + 'Every returning path of an event call enqueues and enters the loop (nothing is decided at send time), and the lock typestate of C04.release is shared: a lock left held, also by a BaseException exit, makes every later call look nested.'
+)
 ASSUMPTIONS = ["user callbacks re-enter the machine only through Event.__call__ (send / event methods / bound events)"]
 TRUSTED = ["collections.deque and threading.Lock semantics", "/verif/sa path enumerator and resolver"]
 
